@@ -71,6 +71,7 @@ fn write_rspfile(rspfile: &RspFile) -> anyhow::Result<()> {
 fn extract_showincludes(output: Vec<u8>) -> (Vec<String>, Vec<u8>) {
     let mut filtered_output = Vec::new();
     let mut includes = Vec::new();
+    let mut first_line = true;
     for line in output.split(|&c| c == b'\n') {
         if let Some(include) = line.strip_prefix(b"Note: including file: ") {
             let start = include.iter().position(|&c| c != b' ').unwrap_or(0);
@@ -82,9 +83,10 @@ fn extract_showincludes(output: Vec<u8>) -> (Vec<String>, Vec<u8>) {
             let include = &include[start..end];
             includes.push(unsafe { String::from_utf8_unchecked(include.to_vec()) });
         } else {
-            if !filtered_output.is_empty() {
+            if !first_line {
                 filtered_output.push(b'\n');
             }
+            first_line = false;
             filtered_output.extend_from_slice(line);
         }
     }
